@@ -138,6 +138,15 @@ type Node struct {
 	Any  interface{}
 }
 
+// Node2 reaches its neighbours through pointers to containers and through an array held by value.
+type Node2 struct {
+	V   int
+	Arr *[2]*Node2
+	PS  *[]*Node2
+	PM  *map[string]*Node2
+	Val [1]*Node2
+}
+
 func intVals(t reflect.Type) []Val {
 	var out []Val
 	add := func(i int64, class string) {
